@@ -75,11 +75,13 @@ func (idx *index) insert(ctx context.Context, p pointer, persist bool) error {
 		return nil
 	}
 
-	// prepare reads the pointer slice, so it has to run under the lock (as in update);
-	// only the file write happens after releasing it.
-	persistPointers := idx.indexPersist.prepare(idx.persistHead)
+	// The lock is kept while the pointers are written (as Delete and GarbageCollect do):
+	// persists must reach the file in the order of the states they encode. Written after
+	// releasing the lock, an older state can land after a newer one and the index file
+	// loses a committed domain (or gets a deleted one back).
+	err := idx.indexPersist.prepare(idx.persistHead)()
 	idx.mu.Unlock()
-	return persistPointers()
+	return err
 }
 
 func (idx *index) overlap(tr telem.TimeRange) bool {
@@ -145,9 +147,10 @@ func (idx *index) update(ctx context.Context, p pointer, persist bool) error {
 	idx.persistHead = min(idx.persistHead, updateAt)
 
 	if persist {
-		persistPointers := idx.indexPersist.prepare(idx.persistHead)
+		// see insert: the lock is kept while writing
+		err := idx.indexPersist.prepare(idx.persistHead)()
 		idx.mu.Unlock()
-		return persistPointers()
+		return err
 	}
 
 	idx.mu.Unlock()
